@@ -195,6 +195,66 @@ def main():
     facts["for_syntax_takes_string_only"] = ("mod_name.string_literal()" in fs
                                              and "parse_require_object_inner" not in fs.split("_ =>")[0])
 
+    # ---- roll-back: the snapshots of compile_main are taken before anything in it can fail, and both error
+    # paths restore the macro environment as well
+    cm = fn_body(mod, r"fn\s+compile_main\s*\(")
+    if cm is None:
+        errors.append("fn compile_main not found")
+        cm = ""
+    snaps = {"metadata": r"self\.rollback_metadata\s*=\s*self\.file_metadata\.clone\(\)\s*;",
+             "modules": r"self\.rollback_modules\s*=\s*Some\(\s*self\.compiled_modules\.clone\(\)\s*\)\s*;",
+             "macros": r"self\.rollback_macros\s*=\s*Some\(\s*global_macro_map\.clone\(\)\s*\)\s*;"}
+    fallible = [m.start() for m in re.finditer(r"\?\s*[;.)]|stop!\(|return\s+Err", cm)]
+    first_fallible = min(fallible) if fallible else len(cm)
+    pos = {k: (re.search(v, cm).start() if re.search(v, cm) else None) for k, v in snaps.items()}
+    facts["snapshot_positions"] = pos
+    facts["first_fallible_position"] = first_fallible
+    facts["snapshot_before_fallible"] = all(pos[k] is not None and pos[k] < first_fallible for k in ("metadata", "modules"))
+    crp = fn_body(comp, r"fn\s+compile_raw_program\s*\(") or ""
+    eng = strip_rust_comments(open(os.path.join(core, "steel_vm/engine.rs")).read())
+    rpe = fn_body(eng, r"fn\s+raw_program_to_executable\s*\(") or ""
+    if not crp:
+        errors.append("fn compile_raw_program not found")
+    if not rpe:
+        errors.append("fn raw_program_to_executable not found")
+    rm_fn = fn_body(mod, r"fn\s+rollback_metadata\s*\(") or ""
+
+    def in_err_branch(body, what):
+        m = re.search(r"if\s+res(?:ult)?\.is_err\(\)\s*\{", body)
+        if not m:
+            return False
+        blk = fn_body(body[m.start():], r"if\s+res(?:ult)?\.is_err\(\)\s*\{") or ""
+        return bool(re.search(what, blk))
+    facts["error_paths_restore_modules"] = (
+        in_err_branch(crp, r"module_manager\.rollback_metadata\(\)") and in_err_branch(rpe, r"module_manager\.rollback_metadata\(\)")
+        and "self.file_metadata=self.rollback_metadata.clone();" in norm(rm_fn)
+        and "ifletSome(modules)=self.rollback_modules.take(){self.compiled_modules=modules;}" in norm(rm_fn))
+    facts["macro_env_rolled_back"] = (
+        pos["macros"] is not None and pos["macros"] < first_fallible
+        and in_err_branch(crp, r"take_rollback_macros\(\)\s*\{\s*self\.macro_env\s*=\s*macros\s*;")
+        and in_err_branch(rpe, r"take_rollback_macros\(\)\s*\{\s*guard\.macro_env\s*=\s*macros\s*;"))
+    # ---- require modifiers and provided macros (find_in_scope_macros)
+    fism = fn_body(mod, r"fn\s+find_in_scope_macros\s*<") or ""
+    if not fism:
+        errors.append("fn find_in_scope_macros not found")
+    ids_branch = else_branch = ""
+    mi = re.search(r"if\s+!require_object\.idents_to_import\.is_empty\(\)\s*\{", fism)
+    if mi:
+        blk = fn_body(fism[mi.start():], r"if\s+!require_object\.idents_to_import\.is_empty\(\)\s*\{") or ""
+        ids_branch = norm(blk)
+        rest = fism[mi.end() + len(blk) + 1:]
+        me = re.match(r"\s*else\s*\{", rest)
+        if me:
+            else_branch = norm(fn_body(rest, r"else\s*\{") or "")
+    k_ids, k_else = (0, 1) if ids_branch and else_branch else (-1, -1)
+    facts["macro_only_in_keeps_listed_only"] = (
+        k_ids >= 0 and k_else > k_ids and "in_scope_macros.retain(|name,_|listed.contains(name));" in ids_branch
+        and ids_branch.count("listed.insert(") == ids_branch.count("in_scope_macros.insert("))
+    facts["macro_prefix_covers_for_syntax"] = bool(re.search(
+        r"ifletSome\(prefix\)=&require_object\.prefix\{foridentinmodule\.provides_for_syntax\.iter\(\)\{"
+        r"ifletSome\(m\)=in_scope_macros\.remove\(ident\)\{in_scope_macros\.insert\(\(prefix\.to_string\(\)\+ident\.resolve\(\)\)\.into\(\),m\);\}\}\}",
+        else_branch))
+
     # ---- contracts
     scm = open(os.path.join(core, "scheme/modules/contracts.scm")).read()
     try:
@@ -376,6 +436,16 @@ else the value itself); a function contract wraps the value with `bind/c` -/
 def flatAppliesPredicate : Bool := %s
 def functionContractWraps : Bool := %s
 
+/-- `compile_main` takes its roll-back snapshots (file metadata, module table) before anything in it can fail
+(`?`, `stop!`, `return Err`), and both error paths (`compile_raw_program`, `raw_program_to_executable`) restore them:
+a rejected evaluation restores the state at ITS OWN start, never an older one. -/
+def snapshotBeforeAnythingCanFail : Bool := %s
+/-- … the macro environment is snapshot there too and restored on both error paths (3bef0920) -/
+def macroEnvRolledBack : Bool := %s
+/-- `find_in_scope_macros`: an identifier list keeps only the listed macros (`retain` on the inserted names), and
+without one the prefix is applied to the `provides_for_syntax` macros as well (0fe3fa8e) -/
+def macroModifiersApplied : Bool := %s
+
 end SteelVerif.C14.Gen
 """
     fw = {f["fn"]: f for f in forwards}
@@ -396,7 +466,10 @@ end SteelVerif.C14.Gen
         ",\n".join(rows), lean_bool(facts["general_validates_all_in_order"]),
         lean_bool(facts["test_arg_flat_applies_predicate"] and facts["check_output_flat_applies_predicate"]
                   and facts["apply_flat_is_predicate_call"]),
-        lean_bool(facts["test_arg_function_wraps"] and facts["check_output_function_wraps"]))
+        lean_bool(facts["test_arg_function_wraps"] and facts["check_output_function_wraps"]),
+        lean_bool(facts["snapshot_before_fallible"] and facts["error_paths_restore_modules"]),
+        lean_bool(facts["macro_env_rolled_back"]),
+        lean_bool(facts["macro_only_in_keeps_listed_only"] and facts["macro_prefix_covers_for_syntax"]))
     old = open(out).read() if os.path.exists(out) else None
     if old != text:
         with open(out, "w") as f:
